@@ -227,7 +227,9 @@ func c16(tier string, args []string) int {
 		ex := &sched.Explorer{Bound: sc.Bound, Build: sc.build(r), Stop: r.TimeUp, MaxExec: 400000,
 			OutcomeKey: func(o interface{}) string { return renderLog(o.(*c16obs).Final) }}
 		ex.Check = func(x *sched.Exec) {
-			sch := func() interface{} { return map[string]interface{}{"scenario": sc.Name, "schedule": x.Schedule(), "choices": x.Choices} }
+			sch := func() interface{} {
+				return map[string]interface{}{"scenario": sc.Name, "schedule": x.Schedule(), "choices": x.Choices}
+			}
 			if x.Deadlock || x.Livelock || x.Aborted != "" {
 				r.Violation("C16/deadlock/"+sc.Name, fmt.Sprintf("%s: deadlock=%v livelock=%v %s", sc.Name, x.Deadlock, x.Livelock, x.Aborted), sch())
 				return
